@@ -130,6 +130,8 @@ def build_model(model, val):
     from optyx import Problem
     b = Build(val, bounds={k: tuple(cval(x, val) if x is not None else None for x in v) for k, v in model.get("bounds", {}).items()},
               domains=model.get("domains", {}))
+    if model.get("vparam"):
+        b.vparam_names = list(model["vparam"])
     rs = [model["obj"]] + [c[1] for c in model["cons"]] + [c[2] for c in model["cons"]]
     for r in rs:
         for d in declare(r):
